@@ -117,18 +117,222 @@ def validate_system_trace(ctx, lines, ninst, label):
 
 
 def system_level(ctx):
-    """real push + pull replications (rest package); hook H6 events validated against the same spec."""
+    """real push + pull replications (rest package); hook H6 events validated against the same spec.  Where hook H6b
+    is in the tree (hooks/H6b-pushprotocol.patch) the same go test run also drives the push-protocol scenarios."""
     raw = os.path.join(ctx.scratch, "c17-sys-raw.ndjson")
-    rc, out = go_test(ctx, "rest", "^TestVerif_C17_System$", ["harness/rest/c17_system_test.go"], env={"VERIF_TRACE_OUT": raw}, timeout=900)
+    ppraw = os.path.join(ctx.scratch, "c17-pp-raw.ndjson")
+    gate = has_push_hooks()
+    env = {"VERIF_TRACE_OUT": raw}
+    if gate:
+        env["VERIF_PP_TRACE_OUT"] = ppraw       # unset: TestVerif_C17_PushProtocol skips itself
+    rc, out = go_test(ctx, "rest", "^TestVerif_C17_(System|PushProtocol)$",
+                      ["harness/rest/c17_system_test.go", "harness/rest/c17_pushprotocol_test.go"], env=env, timeout=900)
     if rc != 0 or not os.path.exists(raw):
         raise Inconclusive("C17 system harness failed:\n" + harness_failure(out))
-    lines, ninst, nticks = convert_hook_events(read_ndjson(raw))
+    evs = read_ndjson(raw)
+    lines, ninst, nticks = convert_hook_events([e for e in evs if str(e.get("obj", "")).startswith("*db.Checkpointer")])
     if nticks == 0:
         raise Inconclusive("system-level run produced no checkpoint (hook H6 not firing?)")
     ctx.cov["system_level"] = {"checkpointer_instances": ninst, "events": len(lines), "ticks_with_checkpoint": nticks}
     validate_system_trace(ctx, lines, ninst, "system")
+    push_protocol(ctx, gate, ppraw, evs)
     if not ctx.quick():
         existing_tests(ctx)
+
+
+# --------------------------------------------------------------------------------------------
+# push protocol (DESIGN 7 item F6): specs/Checkpointer/PushProtocol.tla, hook H6b
+# --------------------------------------------------------------------------------------------
+# model matrix: cfg -> invariant TLC must report as violated (None = must be proved).  The AsCoded rows are the named
+# deviations (hole a = AllowIntraBatch, hole b = AllowCrossBatch); the other rows say which repair closes which hole.
+PP_MATRIX = [
+    ("PP_AsCoded_FF", None),                       # the code as it is, proved modulo both named deviations
+    ("PP_AsCoded_TF", "SafeOffered"),              # (a) tick between AddAlreadyKnownSeq and AddExpectedSeqs of one batch
+    ("PP_AsCoded_FT", "SafeOffered"),              # (b) later batch registered before an earlier one
+    ("PP_AtOffer_TT", None),                       # repair: register the whole batch as expected when it is offered - closes both
+    ("PP_AsCoded_TT", "SafeOffered"),
+    ("PP_ExpectFirst_FF", None),
+    ("PP_ExpectFirst_TF", "NoRegressOffered"),     # swapping the callbacks closes (a) for SafeOffered, but checkpoints can still regress
+    ("PP_ExpectFirst_FT", "SafeOffered"),          # ... and leaves (b)
+    ("PP_ExpectFirst_TT", "SafeOffered"),
+    ("PP_ExpectBeforeSend_FF", None),
+    ("PP_ExpectBeforeSend_TF", "NoRegressOffered"),
+    ("PP_ExpectBeforeSend_FT", "SafeOffered"),
+    ("PP_ExpectBeforeSend_TT", "SafeOffered"),
+    ("PP_AtOffer_FF", None), ("PP_AtOffer_TF", None), ("PP_AtOffer_FT", None),
+]
+PP_KEYS = {"intra": "known-callback-before-expect-callback", "cross": "later-batch-registered-before-earlier"}
+
+
+def has_push_hooks():
+    try:
+        return "VerifHasGate" in open(os.path.join(REPO, "base", "verif_on.go")).read()
+    except OSError:
+        return False
+
+
+def push_protocol_model(ctx):
+    """PushProtocol model matrix: counterexamples (a) and (b) are EXPECTED (named deviations); a different outcome
+    than the table is model drift (inconclusive), never a verdict about the real code."""
+    rows = PP_MATRIX[:3] if ctx.quick() else PP_MATRIX
+    res = {}
+    for cfg, expect in rows:
+        r = tlc(ctx, SPEC, "MC_PushProtocol", cfg + ".cfg", timeout=1800, allow_violation=True, tag=cfg)
+        if r.error_text:
+            raise Inconclusive("TLC error in MC_PushProtocol/%s: %s" % (cfg, r.error_text))
+        if r.inv_violated != expect:
+            raise Inconclusive("PushProtocol model drift: %s expected %s, TLC says %s" % (cfg, expect or "no violation", r.inv_violated or "no violation"))
+        if expect is None:
+            ctx.cov["states"] += r.distinct
+            ctx.cov["transitions"] += r.generated
+        res[cfg] = expect or "proved"
+        log("  TLC %-28s %-26s %9d distinct  -> %s  %.1fs" % ("MC_PushProtocol", cfg, r.distinct, expect and ("counterexample " + expect + " (expected, named deviation)") or "proved", r.wall))
+    ctx.cov["push_protocol_model"] = res
+
+
+def convert_push_events(evs):
+    """H6 + H6b events -> one group of Trace_PushProtocol lines per PUSH checkpointer instance (a PushBind event starts
+    an instance and ties the BlipSyncContext's Offered/Answer events of that collection to the checkpointer)."""
+    groups, cur_ck, cur_bsc = [], {}, {}
+    for e in sorted([e for e in evs if "n" in e], key=lambda e: e["n"]):
+        obj, ev = str(e.get("obj", "")), e.get("ev")
+        if ev == "PushBind":
+            g = {"ckpt": e["ckpt"], "scn": e.get("scn", ""), "events": []}
+            groups.append(g)
+            cur_ck[e["ckpt"]] = g
+            cur_bsc[(obj, e.get("coll", -1))] = g
+        elif obj.startswith("*db.Checkpointer"):
+            if obj in cur_ck:
+                cur_ck[obj]["events"].append(e)
+        elif ev in ("Offered", "Answer") and (obj, e.get("coll", -1)) in cur_bsc:
+            cur_bsc[(obj, e.get("coll", -1))]["events"].append(e)
+    for g in groups:
+        es = g["events"]
+        vals = {0}
+        for e in es:
+            for f in ("toks", "E", "P", "ret", "seqs"):
+                for t in e.get(f, []) or []:
+                    vals.update(t)
+        rank = {v: i for i, v in enumerate(sorted(vals))}
+        rk = lambda ts: [[rank[x] for x in t] for t in (ts or [])]
+        th = next((e["th"] for e in es if e["ev"] == "Tick"), 100)
+        lines = [{"a": "Reset", "th": th, "beh": g["ckpt"]}]
+        for e in es:
+            ev = e["ev"]
+            if ev in ("Expect", "AlreadyKnown", "Processed"):
+                lines.append({"a": ev, "toks": rk(e["toks"]), "E": rk(e["E"]), "P": sorted(rk(e["P"]))})
+            elif ev == "Sort":
+                lines.append({"a": "Sort", "E": rk(e["E"]), "P": sorted(rk(e["P"]))})
+            elif ev == "Tick":
+                r = rk(e["ret"])
+                lines.append({"a": "Tick", "ret": r[0] if r else [], "E": rk(e["E"]), "P": sorted(rk(e["P"]))})
+            elif ev == "Offered":
+                lines.append({"a": "Offered", "seqs": rk(e["seqs"]), "batch": e.get("batch", "")})
+            elif ev == "Answer":
+                lines.append({"a": "Answer", "want": [t for t, w in zip(rk(e["seqs"]), e.get("want") or []) if w], "batch": e.get("batch", "")})
+            else:
+                continue
+            lines[-1]["n"] = e["n"]
+        g["lines"] = lines
+        g["offers"] = sum(1 for x in lines if x["a"] == "Offered")
+        g["ticks"] = sum(1 for x in lines if x["a"] == "Tick" and x["ret"])
+    return [g for g in groups if g["offers"]]
+
+
+def classify_push_violation(lines, upto):
+    """which hole does the failing tick fall into?  (bookkeeping for the finding key only - the verdict is TLC's)"""
+    batch_of, wanted, done, ret = {}, set(), set(), None
+    for x in lines[:upto]:
+        if x["a"] == "Offered":
+            for t in x["seqs"]:
+                batch_of[tuple(t)] = x["batch"]
+        elif x["a"] == "Answer":
+            wanted.update(tuple(t) for t in x["want"])
+        elif x["a"] in ("Processed", "AlreadyKnown"):
+            done.update(tuple(t) for t in x["toks"])
+        elif x["a"] == "Tick":
+            ret = tuple(x["ret"]) if x["ret"] else None
+    if ret is None:
+        return None, []
+    missed = sorted(t for t in wanted - done if t <= ret)          # plain sequences on the push path: rank order = Before
+    if not missed:
+        return None, []
+    kind = "intra" if any(batch_of.get(t) == batch_of.get(ret) for t in missed) else "cross"
+    return kind, [list(t) for t in missed]
+
+
+def push_protocol(ctx, gate, ppraw, sys_evs):
+    push_protocol_model(ctx)
+    if not gate:
+        ctx.notes.append("push-protocol scenario SKIPPED: hook H6b (hooks/H6b-pushprotocol.patch) is not in this tree; "
+                         "model counterexamples (a)/(b) of PushProtocol remain candidates")
+        ctx.cov["push_protocol"] = {"skipped": "hook H6b absent"}
+        return
+    if not os.path.exists(ppraw):
+        raise Inconclusive("push-protocol harness wrote no trace")
+    evs = read_ndjson(ppraw)
+    if any(e.get("ev") == "Skip" for e in evs):
+        ctx.notes.append("push-protocol scenario SKIPPED by the harness: " + next(e.get("why", "") for e in evs if e.get("ev") == "Skip"))
+        ctx.cov["push_protocol"] = {"skipped": "no Offered events"}
+        return
+    done = next((e for e in evs if e.get("ev") == "Done"), None)
+    if done is None:
+        raise Inconclusive("push-protocol harness did not finish")
+    outcome = [e for e in evs if e.get("ev") == "Outcome"]
+    groups = convert_push_events(evs)
+    free = convert_push_events(sys_evs)                 # free-running push replications of TestVerif_C17_System
+    for g in free:
+        g["scn"] = "free-running"
+    info = {"forced_instances": len(groups), "free_running_instances": len(free), "windows_reached": {k: v for k, v in done.items() if k.endswith("_reached")},
+            "restart_outcome": [{k: v for k, v in o.items() if k not in ("obj", "scn", "ev")} for o in outcome], "reproduced": []}
+    ctx.cov["push_protocol"] = info
+    if not done.get("intra_window_reached") or not done.get("cross_window_reached"):
+        ctx.notes.append("push-protocol scenario: a forced window was not reached (%s)" % info["windows_reached"])
+    clean = []
+    for g in groups + free:
+        label = "pp-" + (g["scn"] or "x")
+        forced = g["scn"].startswith(("intra", "cross")) and not g["scn"].endswith(("-pre", "-restart"))
+        if not forced:
+            clean.append(g)
+            continue
+        validate_push_group(ctx, [g], label, info, outcome)
+    if clean:
+        validate_push_group(ctx, clean, "pp-rest", info, outcome)
+
+
+def validate_push_group(ctx, gs, label, info, outcome):
+    lines = [x for g in gs for x in g["lines"]]
+    tr = os.path.join(ctx.scratch, "c17-%s.ndjson" % label)
+    write_ndjson(tr, lines)
+    ctx.cov["evaluations"] += len(gs)
+    ctx.cov["distinct_nontrivial"] += sum(1 for g in gs if g["ticks"])
+    vp = validate(ctx, SPEC, "Trace_PushProtocol", "Trace_PushProtocol_P.cfg", tr, tag=label + "P")
+    if vp.inv:
+        at = (vp.line or 2) - 1                          # TLC's l is the position AFTER the consumed line
+        start = max(i for i in range(at) if lines[i]["a"] == "Reset")
+        kind, missed = classify_push_violation(lines[start:], at - start)
+        scn = next((g["scn"] for g in gs if g["lines"][0] is lines[start]), "")
+        kind = kind or ("intra" if scn.startswith("intra") else "cross" if scn.startswith("cross") else "unclassified")
+        inv = "NoRegressOffered" if vp.inv == "TNoRegressOffered" else vp.inv
+        key = "%s:%s" % (inv, PP_KEYS.get(kind, kind))
+        excerpt = lines[max(start, at - 10):at]
+        what = ("real push replication (%s): the checkpointer handed %s to persistence while offered change(s) %s, which the peer had asked for, were neither "
+                "acknowledged nor already known [%s] (ranks; %s at event n=%s)" % (scn or label, excerpt[-1].get("ret"), missed, PP_KEYS.get(kind, kind), inv, excerpt[-1].get("n")))
+        if kind == "cross" and outcome:
+            what += "; after Stop/Start from that persisted checkpoint: %s" % json.dumps({k: v for k, v in outcome[-1].items() if k.endswith("_on_passive")}, sort_keys=True)
+        info["reproduced"].append({"key": key, "scenario": scn, "events": excerpt})
+        ctx.sample({"push_protocol": key, "real_events": excerpt[-6:]})
+        report_violation(ctx, key, what, {"invariant": inv, "scenario": scn, "events": excerpt, "missed": missed,
+                                          "restart_outcome": outcome[-1] if (kind == "cross" and outcome) else None, "state": (vp.state or {}).get("_txt")})
+        return
+    if not vp.accepted:
+        raise Inconclusive("%s trace: pass P stopped at line %s of %s\n%s" % (label, vp.line, vp.total, vp.out[-1500:]))
+    vc = validate(ctx, SPEC, "Trace_PushProtocol", "Trace_PushProtocol_C.cfg", tr, tag=label + "C")
+    if vc.inv or not vc.accepted:
+        ctx.cov["nonconformance"] += 1
+        ctx.notes.append("%s trace pass C rejected at line %s (%s)" % (label, vc.line, vc.inv))
+    else:
+        ctx.cov["traces_validated_against_impl"] += len(gs)
 
 
 EXISTING = "^(TestActiveReplicatorPushBasic|TestActiveReplicatorPullBasic|TestActiveReplicatorPushFromCheckpoint|TestActiveReplicatorPullFromCheckpoint|" \
